@@ -102,10 +102,12 @@ def run(ctx):
                     if pl["local"] in child_locals:
                         ctx.report("C03-fresh-frame", "stored", "the fresh frame is stored into a parameter", where_of(asp, span=s["span"]))
     # frames are created only here and for library/root environments
+    # (value environments only: syntax scopes `LexicalScope<Transformer>` are the parser's business)
     makers = sorted({g.name.split("::{closure")[0] for g in fb.all("lib") for b, t in g.calls()
-                     if callee_matches(t, "environment::LexicalScope::new_child")})
+                     if callee_matches(t, "environment::LexicalScope::new_child")
+                     and "Transformer" not in " ".join((t.get("fn") or {}).get("generics", []) + t.get("argtys", []))})
     ctx.inst("C03-fresh-frame", "new_child-callers", makers)
-    allowed_makers = {asp.name, "parser::parser::Parser::transform_lambda"}
+    allowed_makers = {asp.name}
     for m in makers:
         if m not in allowed_makers:
             ctx.report("C03-fresh-frame", "maker/" + m, "%s creates child frames" % m, None)
